@@ -112,12 +112,16 @@ func c05Cases(quick bool) []EnumCase {
 		out = append(out, mkCase(n, tc))
 	}
 	var secs []uint16
-	for t := uint16(1); t <= 40; t++ {
+	top := uint16(150)
+	if !quick {
+		top = 1300
+	}
+	for t := uint16(1); t <= top; t++ {
 		secs = append(secs, t)
 	}
-	secs = append(secs, 59, 60, 61, 255, 256, 300)
+	secs = append(secs, 255, 256, 300)
 	if !quick {
-		secs = append(secs, 3599, 3600, 65535)
+		secs = append(secs, 3599, 3600, 16383, 16384, 32767, 32768, 65535)
 	}
 	for _, T := range secs {
 		for _, ph := range phases {
@@ -257,12 +261,16 @@ func c06Cases(quick bool) []EnumCase {
 		out = append(out, mkCase(n, tc))
 	}
 	var secs []uint16
-	for t := uint16(1); t <= 40; t++ {
+	top := uint16(150)
+	if !quick {
+		top = 1300
+	}
+	for t := uint16(1); t <= top; t++ {
 		secs = append(secs, t)
 	}
-	secs = append(secs, 59, 60, 61, 255, 256, 300)
+	secs = append(secs, 255, 256, 300)
 	if !quick {
-		secs = append(secs, 3599, 3600, 65535)
+		secs = append(secs, 3599, 3600, 16383, 16384, 32767, 32768, 65535)
 	}
 	for _, E := range secs {
 		for _, ph := range phases {
@@ -353,8 +361,8 @@ func init() {
 				return 3
 			}, MaxExec: schedCapT(6000, 40000)}
 		},
-		"one execution of the real engine with its own sweepers on virtual time per (unit, T, enqueue phase within the server second, interference pattern); T covers every second value 0..40 (the whole re-check ladder and the hand-over to the long-wait table) plus boundary values; oracle on virtual timestamps: T <= t_reply - t_enqueue <= T+2s, never after a grant, never granted after TIMEOUT, nothing left queued; plus schedule DFS of unlock / cancel racing the sweeper on the deadline tick; non-trivial = the run produced at least two replies",
-		[]string{"exhaustive over the classes the code distinguishes, not over all 65536 values of T", "virtual time: computation takes zero time, so the bounds are exact statements about server ticks", "sub-3s millisecond waits: lower bound and eventual firing only, as the property states"})
+		"one execution of the real engine with its own sweepers on virtual time per (unit, T, enqueue phase within the server second, interference pattern); T covers every second value 0..150 (quick) / 0..1300 (thorough) - the whole re-check ladder and the hand-over to the long-wait table - plus boundary values up to 65535; a second plan checks the deadline recorded for EVERY value 1..65535 in all three units; oracle on virtual timestamps: T <= t_reply - t_enqueue <= T+2s, never after a grant, never granted after TIMEOUT, nothing left queued; plus schedule DFS of unlock / cancel racing the sweeper on the deadline tick; non-trivial = the run produced at least two replies",
+		[]string{"firing is executed for the classes the code distinguishes; for all 65535 values of T the recorded deadline is compared with enqueue time + value", "virtual time: computation takes zero time, so the bounds are exact statements about server ticks", "sub-3s millisecond waits: lower bound and eventual firing only, as the property states"})
 
 	enumCheck("C06", "exploration",
 		func(q bool) []*EnumPlan {
@@ -377,5 +385,5 @@ func init() {
 			}, MaxExec: schedCapT(6000, 40000)}
 		},
 		"one execution of the real engine with its own sweepers on virtual time per (unit, E, grant phase, interference pattern: none, queued request served at expiry, unlock before the deadline, re-entrant re-lock, update lengthening / shortening / by one unit, unlimited flag, 200 holds on one deadline with half of them unlocked); oracle on virtual timestamps: E <= t_EXPRIED - t_grant_or_last_term_change <= E+2s (10 s after a shortening update), exactly one EXPRIED under the RequestId that last set the terms, queued request granted when the hold ends; plus schedule DFS of unlock racing the expiry sweeper on the deadline tick; non-trivial = the run produced at least two replies",
-		[]string{"exhaustive over the classes the code distinguishes, not over all 65536 values of E", "virtual time: computation takes zero time", "an update moving the deadline by at most one unit may be ignored (both outcomes accepted)"})
+		[]string{"firing is executed for the classes the code distinguishes (every E 1..150 / 1..1300 s); for all 65535 values of E the recorded deadline is compared with grant time + value (granted at once and out of the queue)", "virtual time: computation takes zero time", "an update moving the deadline by at most one unit may be ignored (both outcomes accepted)"})
 }
